@@ -17,20 +17,20 @@ EXTENDS TraceArt
 VARIABLE gt      \* gt[t]: the L1 model's tree for real tree t
 
 L1 == INSTANCE ArtTree WITH
-        Keys <- <<>>, Family <- "alpha", RangeBad <- {}, EmitEdges <- FALSE, MaxDepth <- 0, Ramp <- FALSE,
+        Keys <- <<>>, Family <- "alpha", RangeBad <- {}, EmitEdges <- FALSE, MaxDepth <- 0, Ramp <- FALSE, StartFull <- FALSE,
         SizeOnSplit <- TRUE, RangeDepth <- "perPath", SearchGuard <- TRUE, LcpBranch <- TRUE, KCounter <- "perIteration",
         tree <- gt, size <- l, m <- m, h <- <<>>, lastOK <- TRUE, phase <- "fill"
 
 GIns(tr, key, k) == IF tr.kind = "empty" THEN MkLeaf(k, key, 1) ELSE L1!InsAt(tr, key, k, 0).t
-GDel(tr, key) ==
+GDel(tr, key, k) ==
   IF tr.kind = "empty" THEN tr
-  ELSE IF tr.kind = "leaf" THEN (IF tr.tk = key THEN EmptyTree ELSE tr)
-  ELSE L1!DelAt(tr, key, 0).t
+  ELSE IF tr.kind = "leaf" THEN (IF tr.k = k THEN EmptyTree ELSE tr)
+  ELSE L1!DelAt(tr, key, k, 0).t
 
 RECURSIVE GFold(_, _, _, _)
 GFold(tr, U_, ops, i) ==
   IF i > Len(ops) THEN tr
-  ELSE GFold(IF ops[i][1] = "I" THEN GIns(tr, U_[ops[i][2]].t, ops[i][2]) ELSE GDel(tr, U_[ops[i][2]].t), U_, ops, i + 1)
+  ELSE GFold(IF ops[i][1] = "I" THEN GIns(tr, U_[ops[i][2]].t, ops[i][2]) ELSE GDel(tr, U_[ops[i][2]].t, ops[i][2]), U_, ops, i + 1)
 
 DriftInit == TraceInit /\ gt = [t \in 1..MaxT |-> EmptyTree]
 
@@ -40,7 +40,7 @@ DriftNext ==
      CASE e.op \in {"reset"} -> gt' = [t \in 1..MaxT |-> EmptyTree]
        [] e.op \in {"new", "clear"} -> gt' = [gt EXCEPT ![e.t] = EmptyTree]
        [] e.op = "Insert" /\ e.pan = "" -> gt' = [gt EXCEPT ![e.t] = GIns(@, uni[e.t][e.k].t, e.k)]
-       [] e.op = "Delete" /\ e.pan = "" -> gt' = [gt EXCEPT ![e.t] = GDel(@, uni[e.t][e.k].t)]
+       [] e.op = "Delete" /\ e.pan = "" -> gt' = [gt EXCEPT ![e.t] = GDel(@, uni[e.t][e.k].t, e.k)]
        [] e.op = "Pre" /\ e.pan = "" -> gt' = [gt EXCEPT ![e.t] = GFold(@, uni[e.t], e.ops, 1)]
        [] OTHER -> gt' = gt
 
